@@ -6,7 +6,7 @@ from __future__ import annotations
 import ast
 from typing import Any, Dict, Optional, Sequence
 
-from .constfold import Folder, Unfoldable, truth
+from .constfold import Folder, PySeq, Unfoldable, truth
 
 
 class FragRaise(Exception):
@@ -85,6 +85,37 @@ def run_fragment(body: Sequence[ast.stmt], names: Dict[str, Any], attrs: Optiona
         else:
             env[t.value.id] = base
 
+    def list_method(c: ast.Call):
+        """append / extend / insert / pop / reverse on a list bound to a name: rebinds the name, returns the call's value"""
+        nm = c.func.value.id
+        cur = env[nm]
+        mk = type(cur) if isinstance(cur, PySeq) else list
+        a = [fold(x) for x in c.args]
+        m = c.func.attr
+        if m == "append" and len(a) == 1:
+            env[nm] = mk(list(cur) + [a[0]])
+            return None
+        if m == "extend" and len(a) == 1 and isinstance(a[0], list):
+            env[nm] = mk(list(cur) + list(a[0]))
+            return None
+        if m == "insert" and len(a) == 2 and isinstance(a[0], int):
+            t = list(cur)
+            t.insert(a[0], a[1])
+            env[nm] = mk(t)
+            return None
+        if m == "reverse" and not a:
+            env[nm] = mk(reversed(list(cur)))
+            return None
+        if m == "pop" and len(a) <= 1 and cur:
+            t = list(cur)
+            try:
+                v = t.pop(*a)
+            except (IndexError, TypeError) as exc:
+                raise Unfoldable(str(exc))
+            env[nm] = mk(t)
+            return v
+        raise Unfoldable(f"list method {m}")
+
     def bind(t, v):
         if isinstance(t, ast.Name):
             env[t.id] = v
@@ -110,14 +141,18 @@ def run_fragment(body: Sequence[ast.stmt], names: Dict[str, Any], attrs: Optiona
                 raise Unfoldable("step budget exhausted")
             if isinstance(st, ast.Expr):
                 c = st.value
-                if isinstance(c, ast.Call) and isinstance(c.func, ast.Attribute) and c.func.attr == "append" and isinstance(c.func.value, ast.Name) and isinstance(env.get(c.func.value.id), list) and len(c.args) == 1:
-                    env[c.func.value.id] = env[c.func.value.id] + [fold(c.args[0])]
+                if isinstance(c, ast.Call) and isinstance(c.func, ast.Attribute) and c.func.attr in ("append", "extend", "insert", "pop", "reverse") and isinstance(c.func.value, ast.Name) and isinstance(env.get(c.func.value.id), list):
+                    list_method(c)
                 continue
             if isinstance(st, ast.Pass):
                 continue
             if isinstance(st, ast.Assign):
                 try:
-                    v = fold(st.value)
+                    c = st.value
+                    if isinstance(c, ast.Call) and isinstance(c.func, ast.Attribute) and c.func.attr == "pop" and isinstance(c.func.value, ast.Name) and isinstance(env.get(c.func.value.id), list):
+                        v = list_method(c)
+                    else:
+                        v = fold(st.value)
                 except Unfoldable:
                     # the value is outside literal arithmetic: its names become unbound (a later use fails)
                     for t in st.targets:
@@ -164,10 +199,7 @@ def run_fragment(body: Sequence[ast.stmt], names: Dict[str, Any], attrs: Optiona
                     steps[0] += 1
                     if steps[0] > max_steps:
                         raise Unfoldable("step budget exhausted")
-                    t = fold(st.test)
-                    if isinstance(t, list):
-                        raise Unfoldable("tensor-valued condition")
-                    if not t:
+                    if not truth(fold(st.test)):
                         break
                     try:
                         run(st.body)
